@@ -7,7 +7,7 @@ THEOREMS = ['ParsecVerif.C14.C14_slots', 'ParsecVerif.C14.C14_served_once', 'Par
             'ParsecVerif.C14.C14_tags', 'ParsecVerif.C14.C14_window_oldest', 'ParsecVerif.C14.C14_delivery_partial',
             'ParsecVerif.C14.C14_served_once_pass', 'ParsecVerif.C14.C14_progress_create', 'ParsecVerif.C14.fill1_active',
             'ParsecVerif.C14.C14_put_get_tags_collide', 'ParsecVerif.C14.C14_testsome_order_matters',
-            'ParsecVerif.C14.C14_delivery_order_caveat']
+            'ParsecVerif.C14.C14_delivery_order_caveat', 'ParsecVerif.C14.C14_acceptor_sound']
 IMPL = 'parsec/parsec_mpi_funnelled.c'
 ENGINE = 'lean-trace'
 LEVEL = 'proof'
@@ -67,7 +67,7 @@ def gen_script(rng, np, nphases, nam, nx, big=False, bipartite=False):
                 if r == 0:
                     ln = rng.below(8)
                 elif r == 1:
-                    ln = mx
+                    ln = mx if (mx <= 2048 or src == large_sender) else min(mx, EAGER)
                 elif tag == 10 and src == large_sender and r < 5:
                     ln = rng.range(EAGER, mx)
                 else:
